@@ -1,6 +1,7 @@
 CONSTANTS
-  Workers <- MCNoWorkers
-  NTs <- MCNTs
+  Workers <- Workers_wall0
+  NTs <- NTs_wall0
+  ThreadNames <- Threads_wall0
   WyFix = FALSE
   AllowSpurious = FALSE
 INIT Init_wall0
